@@ -366,6 +366,7 @@ func (c *Cluster) deliver(p Pending) {
 		}
 		return
 	}
+	c.cmd.ensure(to)
 	c.Mon.beforeHandle(to, msg)
 	pan, site := to.Node.Deliver(msg, 10000)
 	if pan != nil {
@@ -437,6 +438,7 @@ func (c *Cluster) LocalTimeout(a *Actor) {
 	v := a.Node.VS.View()
 	c.trace(TraceEntry{Kind: "timeout", To: a.Name(), View: uint64(v)})
 	c.Timeouts++
+	c.cmd.ensure(a)
 	c.Mon.beforeHandle(a, hotstuff.TimeoutEvent{View: v})
 	pan, site := a.Node.Deliver(hotstuff.TimeoutEvent{View: v}, 10000)
 	if pan != nil {
@@ -606,10 +608,29 @@ func (f *cmdFeed) topUp() {
 	// Liveness reserve: every replica also has a private client whose commands no other replica receives, so
 	// that other leaders' proposals (which advance the shared clients' proposed markers) can never make all of
 	// a replica's cached commands stale at once. The shared clients 1..3 provide the overlapping command sets.
-	want := 8 * int(max(f.c.Cfg.BatchSize, 1))
 	for _, a := range f.c.Actors {
+		f.fill(a)
+	}
+}
+
+// ensure refills one replica's reserve if it has run low: a replica that leads many views in a row can propose more
+// often between two top-ups than the reserve lasts (a backlog of timeout certificates delivered in one round), and a
+// Get that blocks would stop the single simulator thread.
+func (f *cmdFeed) ensure(a *Actor) {
+	if a.Node == nil || a.Crashed {
+		return
+	}
+	_, token, _, by, ok := vk.CmdCacheFreshBy(a.Node.Cmds)
+	if ok && (by[uint32(1000+a.Idx)] < 3*int(max(f.c.Cfg.BatchSize, 1)) || !token) {
+		f.fill(a)
+	}
+}
+
+func (f *cmdFeed) fill(a *Actor) {
+	want := 8 * int(max(f.c.Cfg.BatchSize, 1))
+	{
 		if a.Node == nil || a.Crashed {
-			continue
+			return
 		}
 		private := uint32(1000 + a.Idx)
 		for tries := 0; tries < 400; tries++ {
